@@ -327,7 +327,7 @@ def first_diff(a, b, depth=0):
 
 
 # ---------------------------------------------------------------------------------------------------------------- static model
-MP_NAMES = {"Pool", "RawArray", "Array", "frombuffer", "imap", "imap_unordered", "map", "starmap", "map_async", "apply_async", "terminate",
+MP_NAMES = {"Pool", "RawArray", "Array", "frombuffer", "as_array", "imap", "imap_unordered", "map", "starmap", "map_async", "apply_async", "terminate",
             "memmove", "memset", "from_buffer", "from_buffer_copy"}
 MUT_METHODS = {"sort", "fill", "resize", "itemset", "put", "partition", "byteswap", "setfield", "setflags"}
 
@@ -395,6 +395,21 @@ class ModInfo:
                     self.bound_names.add(n.name)
                 elif isinstance(n, ast.ExceptHandler) and n.name:
                     self.bound_names.add(n.name)
+        # module-level dicts that start empty and are filled inside functions (`_SHARED = {}` ... `_SHARED["wn"] = view`): process-global state
+        # held as entries of one dict instead of one `global` name each
+        self.gdicts = set()
+        empties = {n for n, v in self.consts.items() if self.nassign.get(n) == 1 and
+                   ((isinstance(v, ast.Dict) and not v.keys) or
+                    (isinstance(v, ast.Call) and isinstance(v.func, ast.Name) and v.func.id == "dict" and not v.args and not v.keywords))}
+        if empties:
+            for f in ast.walk(mod.tree):
+                if isinstance(f, (ast.FunctionDef, ast.AsyncFunctionDef)):
+                    for n in ast.walk(f):
+                        if isinstance(n, ast.Subscript) and isinstance(n.ctx, (ast.Store, ast.Del)) and isinstance(n.value, ast.Name) and n.value.id in empties:
+                            self.gdicts.add(n.value.id)
+                        elif isinstance(n, ast.Call) and isinstance(n.func, ast.Attribute) and isinstance(n.func.value, ast.Name) and \
+                                n.func.value.id in empties and n.func.attr in ("update", "setdefault", "pop", "clear", "popitem"):
+                            self.gdicts.add(n.func.value.id)
         uses_globals_dict = False
         strs = set()
         for f in ast.walk(mod.tree):
